@@ -497,3 +497,35 @@ impl Out {
         self
     }
 }
+
+/// Text that no lexer of IEC 61131-3 can match, to be put at the END of a file: a comment or a string
+/// literal that is never closed (so "the unmatched text" is as long as the rest of the file), or a
+/// run of characters that start no token.  The length is drawn from every scale up to a few KiB and
+/// the filler is ASCII, two-, three- or four-byte characters with 0..3 ASCII characters in front, so
+/// that every fixed byte offset (32, 64, 128, 256 ...) is met inside a character now and then -
+/// whoever quotes, truncates or measures the unmatched text meets it at every phase.
+pub fn unmatched_tail(t: &mut Tape) -> String {
+    let opener = *t.pick(&["(* ", "(*", "'", "\"", "(* note: ", "'abc$", "?", "@@", ""]);
+    let unit = *t.pick(&["x", "\u{e9}", "\u{20ac}", "\u{1f600}", "ab\u{e9}", "\u{fc}\u{df} ", "\u{20ac}1"]);
+    let len = match t.below(6) {
+        0 => t.below(8),
+        1 => 20 + t.below(20),
+        2 => 56 + t.below(16),
+        3 => 120 + t.below(16),
+        4 => 248 + t.below(16),
+        _ => t.below(3000),
+    };
+    let mut s = String::from(opener);
+    s.push_str(&"x".repeat(t.below(4)));
+    while s.len() < opener.len() + len {
+        s.push_str(unit);
+    }
+    if opener.is_empty() {
+        // a run of characters that start no token
+        s = s.replace('x', "?").replace('a', "~").replace('b', "`").replace('1', "@").replace(' ', "?");
+    }
+    if t.flag() {
+        s.push('\n');
+    }
+    s
+}
